@@ -22,6 +22,14 @@ var corpusDocs = []string{
 	`query($v:Int){cmp(any:[$v], b:true)}`,
 	`query($v:Int){cmp(oo:{a:$v}, b:true)}`,
 	`query($v:Int){cmp(oo:[[$v]], b:true)}`,
+	`{ab{... on Alpha{tl} ... on Beta{tl}}}`,
+	`{ab{... on Beta{tl} ... on Alpha{tl}}}`,
+	`{node{... on Alpha{t} ... on Gamma{t}}}`,
+	`{node{... on Gamma{t} ... on Alpha{t}}}`,
+	`{ab{... on Alpha{tol{__typename}} ... on Beta{tol{__typename}}}}`,
+	`{ab{... on Beta{tol{__typename}} ... on Alpha{tol{__typename}}}}`,
+	`{ab{... on Alpha{ton{__typename}} ... on Beta{ton{__typename}}}}`,
+	`{ab{... on Beta{ton{__typename}} ... on Alpha{ton{__typename}}}}`,
 }
 
 func generate(h *hx.H) {
